@@ -233,6 +233,28 @@ func (o *Oracle) judgeOktaAnswer(e *Exchange, email string, asked, got []string,
 	}
 	o.res.cover("C17.A1|world|okta|from-cache")
 	prev, ok := o.okAnswers[k]
+	if !ok && tok != "" {
+		// the question that filled the cache may still be on its way back to its asker (held between two
+		// statements): what the directory answered to it is already on the wire
+		for _, x := range l3 {
+			if endpointOf(x.Path) != "userinfo" || x.Status != 200 || x.Err != "" || x.ReqHdr.Get("Authorization") != "Bearer "+tok || x.Done > e.Done {
+				continue
+			}
+			var b struct {
+				Groups []string `json:"groups"`
+			}
+			if json.Unmarshal(x.RespBody, &b) != nil {
+				continue
+			}
+			var want []string
+			for _, g := range key {
+				if contains(b.Groups, g) {
+					want = append(want, g)
+				}
+			}
+			prev, ok = okAnswer{groups: want, seq: x.Seq}, true
+		}
+	}
 	if !ok {
 		o.violate(e, "C17.A1-cache-repeats-the-directory", fmt.Sprintf("/profile answered %v about %s × %v without asking the directory, and the directory was never asked that question before", gotS, email, key), "path", "world", "facet", "never-asked")
 		return
